@@ -436,6 +436,7 @@ def run(tier):
     rule_R3b(res, prog)
     rule_R7(res, prog)
     rule_R8(res, prog)
+    rule_R9(res, prog)
     res.floor("C19.R1", 150)
     res.floor("C19.R2", 3)
     res.floor("C19.R3", 30)
@@ -1244,3 +1245,74 @@ def rule_R8(res, prog):
                                      file=fn.relfile, line=ln0)
                     res.instance(rid, "%s:%s %s(&%s)" % (fn.name, ln0, call["fn"], v["n"]), bad is None, finding=f_)
     res.floor(rid, 5)
+
+
+_R9_FREE = {"free"}
+
+
+def _r9_strip_cast(a):
+    a=strip(a)
+    while a is not None and a.get("k")=="cast": a=strip(a["e"])
+    return a
+def _r9_search(fn,vid):
+    seen=set(); stack=[(fn.entry,False,None,[])]
+    while stack:
+        bid,freed,nul,path=stack.pop()
+        if (bid,freed,nul) in seen: continue
+        seen.add((bid,freed,nul))
+        b=fn.bmap[bid]
+        for i,ln,x in cu_r7.block_exprs(b):
+            for m in walk(x):
+                if m.get("k")=="bin" and m["op"]=="=" and (strip(m["l"]) or {}).get("id")==vid:
+                    freed=False; nul=None
+                    r=_r9_strip_cast(m["r"])
+                    if r is not None and r.get("k")=="int" and r["v"]==0: nul=True
+                if m.get("k")=="call" and any((_r9_strip_cast(q) or {}).get("k")=="un" and (_r9_strip_cast(q) or {}).get("op")=="&" and (strip((_r9_strip_cast(q) or {}).get("e")) or {}).get("id")==vid for q in m.get("a",[])):
+                    freed=False; nul=None
+                if m.get("k")=="call" and m.get("fn") in _R9_FREE and m.get("a") and (_r9_strip_cast(m["a"][0]) or {}).get("id")==vid:
+                    if freed and nul is not True: return (ln,path[-5:])
+                    if nul is not True: freed=True
+        t=b.get("term")
+        for k,sc in enumerate(b["succ"]):
+            if sc.get("b") is None: continue
+            n2=nul; skip=False
+            if t is not None and "c" in t and len(b["succ"])==2:
+                for (txt,tr,nd) in cu_r7._cond_atoms(t["c"],k==0):
+                    nd0=strip(nd)
+                    if nd0 is not None and nd0.get("k")=="var" and nd0.get("id")==vid:
+                        if n2 is not None and n2==tr: skip=True   # nul True means pointer is NULL -> atom truth False
+                        n2=(not tr)
+            if skip: continue
+            stack.append((sc["b"],freed,n2,path+[t.get("ln") if t else None]))
+    return None
+
+
+def rule_R9(res, prog):
+    """No double free inside a function: a local pointer that is released is not released again on any path unless it was
+    re-assigned (directly, or by passing its address to a callee) or is known NULL in between.  Typical origin: an error
+    branch that frees `everything` although an earlier statement already freed one of the pointers."""
+    rid = "C19.R9"
+    res.rule(rid, "a local pointer is not passed to free twice on one path without being re-assigned in between")
+    n = 0
+    for fn in sorted(prog.functions.values(), key=lambda f: f.qname):
+        if not fn.blocks or fn.relfile.startswith(("crypto/test", "matrixssl/test", "apps/", "core/test", "core/src/sfzcl")):
+            continue
+        frees = [(b, ln, c) for b, ln, c in fn.calls() if c.get("fn") in _R9_FREE and c.get("a")]
+        vars_ = {}
+        for b, ln, c in frees:
+            a = _r9_strip_cast(c["a"][0])
+            if a is not None and a.get("k") == "var" and a.get("sc") == "l" and "id" in a:
+                vars_.setdefault(a["id"], [a, 0])[1] += 1
+        for vid, (v, cnt) in sorted(vars_.items()):
+            if cnt < 2:
+                continue
+            n += 1
+            hit = _r9_search(fn, vid)
+            f_ = None
+            if hit:
+                f_ = Finding(PROP, rid, fn.name, "%s freed twice" % v["n"],
+                             "%s:%s %s(): the local pointer %s is passed to free at line %s on a path (via lines %s) on which it was already "
+                             "freed and not re-assigned: double free (typically on an allocation-failure branch)" % (
+                                 fn.relfile, hit[0], fn.name, v["n"], hit[0], hit[1]), file=fn.relfile, line=hit[0])
+            res.instance(rid, "%s: %s released at %d sites" % (fn.name, v["n"], cnt), not hit, finding=f_)
+    res.floor(rid, 30)
